@@ -87,8 +87,17 @@ def parse_subst(s):
         if not part:
             continue
         a, b = part.split("=>")
+        a = a.strip()
+        if a.startswith("(opt)"):
+            # optional substitution: it need not match (used where the ABSENCE of the call is itself decided by a contract,
+            # e.g. a dropped wake_sender() then fails the precondition of the await stand-in)
+            a = a[len("(opt)"):]
+            OPTIONAL_SUBST.add(tuple(t.text for t in tokenize(a)))
         out.append(([t.text for t in tokenize(a)], b.strip()))
     return out
+
+
+OPTIONAL_SUBST = set()
 
 
 def split_args(src, lo, hi):
@@ -607,7 +616,7 @@ def check_subst_used(d, subst, stats, what):
     source has changed under the contract (the generated text would silently keep the unsubstituted form) -> lost anchor"""
     used = stats.pop("__subst_used", set())
     for (pat, rep) in subst:
-        if tuple(pat) not in used:
+        if tuple(pat) not in used and tuple(pat) not in OPTIONAL_SUBST:
             raise LostAnchor(f"{d.get('file')}::{what}: substitution `{' '.join(pat)}` did not match anything")
 
 
